@@ -1,0 +1,12 @@
+//go:build verif
+
+// Contracts for package monitoring, checked by /verif/govc. Comment-only: no code.
+package monitoring
+
+// Ghost view of a counter's value.
+//@ global counterVal map[*Counter]int
+
+//@ func (c *Counter) Add
+//@ trusted
+//@ ensures counterVal[c] == old(counterVal[c]) + delta
+//@ modifies counterVal[c]
